@@ -496,14 +496,22 @@ func (s *Stream) ensureAnalytic() {
 	})
 }
 
-// evalAnalytic 求值分析函数并把结果注入 dataMap（供 WHERE 占位符引用），返回结果供投影。
+// evalAnalytic 求值分析函数并把结果注入工作 map（供 WHERE 占位符引用），返回工作 map 与结果（供投影）。
 // 在 WHERE 之前调用（分析函数最先求值，不受 WHERE 影响）。
-func (s *Stream) evalAnalytic(dataMap map[string]any) map[string]any {
+//
+// The injected values never go into the caller's map: without a JOIN, dataMap is the very map the
+// caller passed to Emit/EmitSync, so it is shallow-copied before the first write and the copy is
+// returned for the filter and the projection to read. With a JOIN, dataMap already is the engine's
+// own enriched copy and is written in place.
+func (s *Stream) evalAnalytic(dataMap map[string]any) (map[string]any, map[string]any) {
 	s.ensureAnalytic()
 	if s.analytic == nil || !s.analytic.HasFields() {
-		return nil
+		return dataMap, nil
 	}
 	results := s.analytic.Evaluate(dataMap)
+	if !s.hasJoin() {
+		dataMap = copyRowShallow(dataMap, len(results))
+	}
 	// SELECT 分析函数注入 dataMap：多列函数按 prefix+列名 扇出，供 WHERE/HAVING 引用。
 	for _, af := range s.config.AnalyticFields {
 		v, ok := results[af.Alias]
@@ -526,7 +534,16 @@ func (s *Stream) evalAnalytic(dataMap map[string]any) map[string]any {
 			dataMap[wc.Placeholder] = v
 		}
 	}
-	return results
+	return dataMap, results
+}
+
+// copyRowShallow returns a new map with the entries of row and room for extra more.
+func copyRowShallow(row map[string]any, extra int) map[string]any {
+	cp := make(map[string]any, len(row)+extra)
+	for k, v := range row {
+		cp[k] = v
+	}
+	return cp
 }
 
 // projectAnalytic 把 SELECT 分析函数结果写入投影输出：单列按 alias，多列按 prefix+列名 扇出。
@@ -655,19 +672,19 @@ func (s *Stream) enrichData(data map[string]any) (dataMap map[string]any, keep b
 }
 
 // applyWhereAndAnalytic 按 WHERE 是否引用分析函数决定求值序，并应用 WHERE 过滤。
-// 返回分析结果（供投影）与是否通过过滤。同步/异步直连路径共用。
-func (s *Stream) applyWhereAndAnalytic(dataMap map[string]any) (analyticResults map[string]any, keep bool) {
+// 返回工作 map（含注入值，供投影读取）、分析结果（供投影）与是否通过过滤。同步/异步直连路径共用。
+func (s *Stream) applyWhereAndAnalytic(dataMap map[string]any) (working map[string]any, analyticResults map[string]any, keep bool) {
 	whereUsesAnalytic := len(s.config.WhereAnalyticCalls) > 0
 	if whereUsesAnalytic {
-		analyticResults = s.evalAnalytic(dataMap)
+		dataMap, analyticResults = s.evalAnalytic(dataMap)
 	}
 	if s.filter != nil && !s.filter.Evaluate(dataMap) {
-		return nil, false
+		return dataMap, nil, false
 	}
 	if !whereUsesAnalytic {
-		analyticResults = s.evalAnalytic(dataMap)
+		dataMap, analyticResults = s.evalAnalytic(dataMap)
 	}
-	return analyticResults, true
+	return dataMap, analyticResults, true
 }
 
 // projectDirectRow 投影 SELECT 字段（表达式/简单字段/分析函数），含 omitEmpty 抑制。
@@ -712,7 +729,7 @@ func (s *Stream) processDirectDataSync(data map[string]any) (map[string]any, err
 	if !keep {
 		return nil, nil // INNER JOIN no match: filtered
 	}
-	analyticResults, pass := s.applyWhereAndAnalytic(dataMap)
+	dataMap, analyticResults, pass := s.applyWhereAndAnalytic(dataMap)
 	if !pass {
 		return nil, nil
 	}
